@@ -60,6 +60,9 @@ structure Cfg where
   while the event waited in the 1-slot feed buffer) is dropped (`true`, proposed fix
   C16-stale-new-head-event.diff) or trusted (`false`, the code at the pinned commit) -/
   l2Clamps : Bool := false
+  /-- proposed-fixes/C16-legacy-reader-held-across-prune.diff: the legacy historical reader repeats its
+  retention check after every read -/
+  readerGuard : Bool := false
   /-- header timestamp of block `n` of the chain the node follows (the blocks are manufactured once; the
   unpruned twin holds them) -/
   ts : Nat → Nat := fun _ => 0
@@ -653,13 +656,17 @@ def lastUpdAtHead (c : Cfg) (s : St) (lastWrite : Nat) : Ans :=
   | .ok => lastUpdRead c s.db lastWrite
   | a => a
 
-/-- A historical reader handed out EARLIER for block `b` (admitted then) and read NOW: the legacy reader
-(`deprecatedstate.NewHistory` over the live database) consults the retention floor only when it is opened;
-every later read scans whatever history entries are in the database at that moment. -/
-def heldRead (c : Cfg) (s : St) (b : Nat) : Ans :=
-  match s.db.height with
-  | none => .notfound
-  | some h => stateRead c s.db b h
+/-- A historical reader handed out EARLIER for block `b` (admitted then; by number or by hash) and read NOW:
+the legacy reader (`deprecatedstate.NewHistory` over the live database) consults the retention floor only
+when it is opened; every later read scans whatever history entries are in the database at that moment.
+With the proposed guard the retention check is repeated after the read: the answer is what a reader opened
+NOW would give. -/
+def heldRead (c : Cfg) (s : St) (byHash : Bool) (b : Nat) : Ans :=
+  if c.readerGuard && c.legacy then answer c s (if byHash then .stateAtHash else .stateAtNumber) b
+  else
+    match s.db.height with
+    | none => .notfound
+    | some h => stateRead c s.db b h
 
 /-- The unpruned twin stores every block `≤ height` completely. -/
 def twinAnswer (height : Option Nat) (q : Q) (n : Nat) : Ans :=
